@@ -91,6 +91,47 @@ def run(repo: Repo, rep: Report) -> None:
                     n_ok += 1
                 else:
                     deviating.append((gname + note, n, edges, inst, diff, spec))
+        # edge flags given as compound expressions of the caller's variables (a & b, a | b, a != b, ~a): the flag is whatever the
+        # expression denotes - a rewrite of the flags (a proxy variable, a normal form) has to keep that meaning
+        forms = [("a & b", "__and__", lambda cn_, x, y: cn_.nary("and", [x, y]), lambda p, q: p and q),
+                 ("a | b", "__or__", lambda cn_, x, y: cn_.nary("or", [x, y]), lambda p, q: p or q),
+                 ("a != b", "__ne__", lambda cn_, x, y: cn_.neg(cn_.iff(x, y)), lambda p, q: p != q),
+                 ("~a", "__invert__", lambda cn_, x, y: cn_.neg(x), lambda p, q: not p)]
+        for gname, n, edges in [g for g in GRAPHS if 1 <= len(g[2]) <= 4]:
+            for fname, dunder, canon_of, meaning in forms:
+                inst = Instance(repo)
+                m = len(edges)
+                A, B = inst.user_bools(m, "A"), inst.user_bools(m, "B")
+                flags = [inst.w.cw.method(x, dunder)(y) if dunder != "__invert__" else inst.w.cw.method(x, dunder)()
+                         for x, y in zip(A.attrs["data"], B.attrs["data"])]
+                g = inst.w.graph(n, edges)
+                inst.w.call("active_edges_acyclic", inst.s, flags, g)
+                refs, cons0 = ref_acyclic(n, edges, None)
+
+                def cons(cons0=cons0, canon_of=canon_of) -> List[Tuple]:
+                    cn_ = Canon({})
+
+                    def sub(t: Any) -> Any:
+                        if isinstance(t, tuple) and len(t) == 2 and t[0] == "E":
+                            return canon_of(cn_, ("A", t[1]), ("B", t[1]))
+                        if isinstance(t, tuple):
+                            return tuple(sub(x) for x in t)
+                        if isinstance(t, list):
+                            return [sub(x) for x in t]
+                        return t
+
+                    return [cn_.renorm(sub(c)) if hasattr(cn_, "renorm") else sub(c) for c in cons0()]
+
+                same, diff = compare(inst, refs, cons)
+                ids = [a for a in inst.arrays if a["user"] == "A"][0]["ids"] + [a for a in inst.arrays if a["user"] == "B"][0]["ids"]
+                spec = (lambda n=n, edges=edges, m=m, meaning=meaning: {p for p in itertools.product([False, True], repeat=2 * m)
+                                                                          if tuple(meaning(p[k], p[m + k]) for k in range(m)) in forests(n, edges)})
+                note = f", flags given as [{fname}]"
+                xitems.append((f"graph '{gname}' {edges}{note}", inst, ids, spec))
+                if same:
+                    n_ok += 1
+                else:
+                    deviating.append((gname + note, n, edges, inst, diff, spec))
     except Undecided as ex:
         rep.undecide("ENC-S", f"active_edges_acyclic: {ex}")
         return
@@ -104,7 +145,7 @@ def run(repo: Repo, rep: Report) -> None:
         cross_check(rep, "active_edges_acyclic", "active_edges_acyclic", xitems, what="edge set")
     else:
         triage(rep, "active_edges_acyclic", "active_edges_acyclic", [d[:5] for d in deviating], forests,
-               lambda inst: [a for a in inst.arrays if a["user"]][0]["ids"], "edge set", "a forest",
+               lambda inst: [i for a in inst.arrays if a["user"] for i in a["ids"]], "assignment of the caller's variables (edge flags, or their operands)", "one whose active edges form a forest",
                specs={id(d[3]): d[5] for d in deviating})
     rep.assume("the reference schema (every vertex has at most one active edge to a strictly lower-ranked neighbour, adjacent ranks distinct, "
                "n rank values) is exact: argument in DESIGN.md C09")
